@@ -648,6 +648,9 @@ def main(tier, seed):
         shutil.rmtree(os.path.join(base, "c13-%d" % os.getpid()), ignore_errors=True)
     except Exception:
         pass
+    # whole-run traces of `inspect` validated against specs/Osaca.tla (clauses owned by this property)
+    from harness import osaca_run
+    osaca_run.whole_runs(run, "C13", tier, seed, n_quick=24)
     return run.finish()
 
 
